@@ -221,17 +221,19 @@ static int destructure1(JanetCompiler *c,
                     JanetSlot arg  = janetc_farslot(c);
                     JanetSlot len  = janetc_farslot(c);
 
-                    janetc_emit_si(c, JOP_LOAD_INTEGER, argi, i, 0);
-                    janetc_emit_ss(c, JOP_LENGTH, len, right, 0);
+                    janetc_emit_si(c, JOP_LOAD_INTEGER, argi, i, 1);
+                    janetc_emit_ss(c, JOP_LENGTH, len, right, 1);
 
-                    /* loop condition - reuse arg slot for the condition result */
-                    int32_t label_loop_start = janetc_emit_sss(c, JOP_LESS_THAN, arg, argi, len, 0);
+                    /* loop condition - reuse arg slot for the condition result. The loop starts
+                     * before any moves that bring far slots into near registers. */
+                    int32_t label_loop_start = janet_v_count(c->buffer);
+                    janetc_emit_sss(c, JOP_LESS_THAN, arg, argi, len, 1);
                     int32_t label_loop_cond_jump = janetc_emit_si(c, JOP_JUMP_IF_NOT, arg, 0, 0);
 
                     /* loop body */
-                    janetc_emit_sss(c, JOP_GET, arg, right, argi, 0);
+                    janetc_emit_sss(c, JOP_GET, arg, right, argi, 1);
                     janetc_emit_s(c, JOP_PUSH, arg, 0);
-                    janetc_emit_ssi(c, JOP_ADD_IMMEDIATE, argi, argi, 1, 0);
+                    janetc_emit_ssi(c, JOP_ADD_IMMEDIATE, argi, argi, 1, 1);
 
                     /* loop - jump back to the start of the loop */
                     int32_t label_loop_loop = janet_v_count(c->buffer);
